@@ -29,8 +29,8 @@ TOL = z3.RealVal('1/1000000000000')     # 1e-12 relative: a 1-ulp excursion of (
 
 _PRE = ('import sys, athlib\nyear = YEAR\nage = AGE\ng = G\nd = {d}\nform = FORM\n'
         'ag = athlib.ag2015 if year == 2015 else athlib.ag2023\n'
-        "MULT = dict(bare=1, K=1000, K1=100, M=1609)\n"
-        "def spell(d):\n    return str(d) if form == 'bare' else '%dK' % (d // 1000) if form == 'K' else '%d.%dK' % (d // 1000, (d % 1000) // 100) if form == 'K1' else '%dM' % (d // 1609)\n"
+        "MULT = dict(bare=1, K=1000, K1=100, K2=10, M=1609)\n"
+        "def spell(d):\n    return str(d) if form == 'bare' else '%dK' % (d // 1000) if form == 'K' else '%d.%dK' % (d // 1000, (d % 1000) // 100) if form == 'K1' else '%d.%02dK' % (d // 1000, (d % 1000) // 10) if form == 'K2' else '%dM' % (d // 1609)\n"
         "code = spell(d)\n"
         'lo, hi = LO, HI\n'
         'def three(c):\n    return ag.calculate_factor(g, age, c), ag.world_best(g, c)\n'
@@ -63,7 +63,7 @@ def scripts(year, g, age, form, lo, hi, far=None):
             for k, v in SCRIPTS_T.items()}
 
 
-MULT = {'bare': 1, 'K': 1000, 'K1': 100, 'M': 1609}
+MULT = {'bare': 1, 'K': 1000, 'K1': 100, 'K2': 10, 'M': 1609}
 
 
 def code_of(v, form):
@@ -75,6 +75,8 @@ def code_of(v, form):
         return _mk(cells + ['K'])
     if form == 'K1':
         return _mk(cells[:-1] + ['.'] + cells[-1:] + ['K'])
+    if form == 'K2':
+        return _mk(cells[:-2] + ['.'] + cells[-2:] + ['K'])
     return _mk(cells + ['M'])
 
 
@@ -86,6 +88,8 @@ def vrange(form, dlo, dhi):
     hi_v = dhi // mult - 1
     if form == 'K1':
         lo_v = max(lo_v, 10)
+    if form == 'K2':
+        lo_v = max(lo_v, 100)
     return (lo_v, hi_v) if lo_v <= hi_v else None
 
 
@@ -166,13 +170,54 @@ def worker(job):
     res = JobResult()
     R = hc.Runner(res, plain(), 'athlib.wma.agegrader.AgeGrader', scripts(year, g, age, form, lo_code, hi_code, far), max_paths=50000, deadline=time.time() + 1200,
                   r_axioms=('mono', 'paired', 'err'))
-    label = '%s %s age %s %s %s..%s (%s - %s)' % (year, g, age, form, dlo, dhi, lo_code, hi_code) + ('' if far is None else ' after %s and %s' % far)
+    label = '%s %s age %s %s %s..%s%s (%s - %s)' % (year, g, age, form, dlo, dhi, '' if far is None else ' after %s and %s' % far, lo_code, hi_code)
     try:
         R.explore(body_segment(year, g, age, form, dlo, dhi, lo_code, hi_code, far), label)
     except E.Budget as e:
         res.inconclusive.append('%s: %s' % (label, e))
     res.extra['segments'] = 1
     return res
+
+
+def row_distance_facts(chk):
+    """finite fact about the data, exhaustive over both tables: the distance cell of every running row (kilometres, what the row search
+    uses) agrees with the distance of its own event code as get_distance estimates it (what the interpolation uses) to 0.1 % - the
+    nominal 1609 m mile against 1609.344 is 0.02 % (the rows are not sorted by distance - track rows precede road rows - so
+    no order is demanded).  The symbolic segments
+    are read from these cells, so a mistyped cell would otherwise move a segment boundary unnoticed."""
+    script = r'''
+import sys, athlib
+bad = []
+for year, ag in ((2015, athlib.ag2015), (2023, athlib.ag2023)):
+    data = ag.get_data()
+    for g in 'mf':
+        table = data[g]
+        i0 = [r[0] for r in table].index('50')
+        for r in table[i0:]:
+            code, km = r[0], r[1]
+            if not isinstance(km, (int, float)) or km <= 0:
+                bad.append('%s %s %s: distance cell %r' % (year, g, code, km)); continue
+            try:
+                d = athlib.get_distance(code[:-1] if code.endswith('MT') else code)
+            except Exception as e:
+                d = None
+            if d and abs(1000.0 * km - d) > 0.001 * d + 1:
+                bad.append('%s %s %s: distance cell %r km but the code stands for %s m' % (year, g, code, km, d))
+print('\n'.join(bad))
+sys.exit(1 if bad else 0)
+'''
+    code, out = plain().run_script(script)
+    chk.obligations += 1
+    if code == 0:
+        chk.discharged += 1
+        chk.trivial += 1
+    elif code == 1:
+        for l in [l for l in out.strip().splitlines() if l.strip()][:20]:
+            one = script.replace("print('\\n'.join(bad))", "bad = [b for b in bad if b == %r]\nprint('\\n'.join(bad))" % l)
+            chk.report({'label': 'row-distance', 'func': 'wma single-event tables', 'kind': 'row-distance', 'args_text': l,
+                        'expected': 'the distance cell of a running row is the distance of its event code', 'observed': l, 'script': one})
+    else:
+        chk.inconclusive_note('row distance facts script failed: %s' % out[-300:])
 
 
 def run(chk, only=None):
@@ -188,7 +233,7 @@ def run(chk, only=None):
             runs = table[i0:]
             ages = [47] if quick else [23, 47, 66.5, 91]
             for age in ages:
-                for form in ('bare', 'K', 'K1', 'M'):
+                for form in ('bare', 'K', 'K1', 'K2', 'M'):
                     # below the first row
                     first_m = int(round(runs[0][1] * 1000))
                     if form == 'bare':
@@ -207,7 +252,8 @@ def run(chk, only=None):
         kj = [j for j in jobs if j[0] == 2023 and j[3] == 'K']
         k1 = [j for j in jobs if j[0] == 2023 and j[3] == 'K1']
         mj = [j for j in jobs if j[0] == 2023 and j[3] == 'M']
-        jobs = [j for j in jobs if j[0] == 2023 and j[3] == 'bare'] + kj[::3] + k1[1::3] + mj[2::3]
+        k2 = [j for j in jobs if j[0] == 2023 and j[3] == 'K2']
+        jobs = [j for j in jobs if j[0] == 2023 and j[3] == 'bare'] + kj[::3] + k1[1::3] + mj[2::3] + k2[::4]
     # history variants: every fourth bare-number segment (thorough: every bare-number segment) once more after two earlier questions
     bare = [j for j in jobs if j[3] == 'bare' and j[6] and j[7]]
     for j in (bare[::4] if quick else bare):
@@ -221,10 +267,12 @@ def run(chk, only=None):
     chk.stubs = ['doubles as reals with monotone rounding (error bound 2**-53); distance / speed as an uninterpreted quotient with cross-multiplied comparison facts for the bracketing bests',
                  'event code = decimal digit cells of the symbolic distance (forks on the number of digits); segment = two neighbouring running rows with different distances, read from the live table',
                  'tolerance 1e-12 relative on every betweenness / order clause']
-    chk.bounds = {'distance': 'every whole metre 20 m .. 400 km (bare numbers); every whole kilometre (N K), every tenth of a kilometre from 1 km (N.d K) and every whole mile (N M) inside a segment', 'ages': [47] if quick else [23, 47, 66.5, 91],
+    chk.bounds = {'distance': 'every whole metre 20 m .. 400 km (bare numbers); every whole kilometre (N K), every tenth (N.d K) and hundredth (N.dd K) of a kilometre from 1 km and every whole mile (N M) inside a segment', 'ages': [47] if quick else [23, 47, 66.5, 91],
                   'tables': [2023] if quick else [2015, 2023], 'segments': len(jobs)}
-    chk.outside = ['N.ddK with two decimals and N.dM / N.ddM (decimal miles) road spellings', 'ages other than the listed ones (the age axis is C14)',
+    chk.outside = ['N.dM / N.ddM (decimal miles) and three-decimal kilometre road spellings', 'ages other than the listed ones (the age axis is C14)',
                    'strict increase of the best time (only "not decreasing from d to d+1" is proved)']
+    if not only:
+        row_distance_facts(chk)
     print('C15: %d segment jobs' % len(jobs), flush=True)
     pool.run_jobs(chk, worker, jobs, chunksize=1, progress=50)
     chk.extra['functions_loaded_through_hook'] = hc.functions_loaded()
